@@ -111,9 +111,9 @@ func c09StoreLevel(r *Run) {
 	for _, how := range []string{"overwrite", "truncate", "bitflip", "remove"} {
 		cases = append(cases, c09StoreCase{"ldb", "table-" + how + "-open", "-"}, c09StoreCase{"ldb", "table-" + how + "-reopen", "-"})
 	}
-	reps := 1
+	reps := 6
 	if r.Thorough() {
-		reps = 25
+		reps = 60
 	}
 	type job struct {
 		c    c09StoreCase
@@ -460,12 +460,12 @@ func c09RunRepoCase(r *Run, ca *CA, origin *Origin, caFile string, idx int, c c0
 		mustReject["listed"], mustReject["unlisted"] = true, true
 	case "repo-closed":
 		repo.Close()
-		b.add("kv entry e none", "ok")
-		if c.Source == "cdp" {
-			modelVerify = false // AddCRL re-creates the entry from the CDP (fresh store / reopened directory)
-		}
+		b.add("kv repoclose", "ok")
+		// a second Close (Cleanup called again) must be harmless
+		b.add("kv repoclose", guarded(func() string { repo.Close(); return "ok" }))
 		expectSig["listed"] = "C09 lookup-after-repository-close-reports-not-revoked"
-		mustReject["listed"] = true
+		expectSig["unlisted"] = "C09 lookup-after-repository-close-reports-not-revoked"
+		mustReject["listed"], mustReject["unlisted"] = true, true
 	case "repo-closed-concurrent":
 		// handshakes race Repository.Close (what Cleanup does on shutdown / config reload)
 		var wg sync.WaitGroup
@@ -493,12 +493,10 @@ func c09RunRepoCase(r *Run, ca *CA, origin *Origin, caFile string, idx int, c c0
 		time.Sleep(5 * time.Millisecond)
 		close(stop)
 		wg.Wait()
-		b.add("kv entry e none", "ok")
-		if c.Source == "cdp" {
-			modelVerify = false
-		}
+		b.add("kv repoclose", "ok")
 		expectSig["listed"] = "C09 lookup-after-repository-close-reports-not-revoked"
-		mustReject["listed"] = true
+		expectSig["unlisted"] = "C09 lookup-after-repository-close-reports-not-revoked"
+		mustReject["listed"], mustReject["unlisted"] = true, true
 	case "failed-swap":
 		// remove the live directory underneath the open database, then refresh: the rename in LevelDbStore.Update fails
 		ldb := store.(*crlstore.LevelDbStore)
